@@ -37,6 +37,12 @@ TABLE = {
             'fields named by the property may only appear under the Sensitive guard (a leak is one element outside its guard, visible as region membership for every message at once), '
             'each field in exactly one part, writer and reader agree; operator&(SceMode,SceMode) is decided by the compiler for all 9 pairs; the encrypted send path passes the constant ScePublic.',
             'Value-level recovery of every field after the two-pass parse and unknown application extensions are not decided; OMEMO code is not part of the configured build.', 'DESIGN.md §2 C17'),
+    'C05': ('compile-time witness (1444 static_asserts over every ordered pair of the finite mechanism universe, decided by g++ with the project flags) + structural rules on the chooser over the clang AST',
+            'Static: the strength order used by std::ranges::max is std::variant\'s operator< on the mechanism type; it is constexpr, so the compiler decides, for all 38x38 ordered pairs, that it agrees with '
+            '"token > SCRAM by hash strength > DIGEST-MD5 > PLAIN > ANONYMOUS" (exhaustive, not sampled). The chooser must keep its stages (disabled filter first, parse, drop unknown, availability filter), '
+            'return nothing iff no candidate, the preferred one only under contains(candidates, preferred), otherwise ranges::max with the default order; availability arms read exactly the credential their '
+            'mechanism consumes; no sendData is reachable when initSaslAuthentication reported an error.',
+            'Trusts libstdc++ views/max; chooseMechanism and onSasl2Authenticate are analysed on clang 14\'s error-recovered AST (degraded; the vector-from-view initialisation is assumed).', 'DESIGN.md §2 C05'),
 }
 
 NOT_APPLICABLE_REASON = 'check not built yet in this session (see DESIGN.md); listed here until qxverif/rules/<id>.py exists'
